@@ -197,7 +197,12 @@ def pick_command(rng, proj, sent, recipe, covered, outdir):
             for f in cov:
                 if d == "." or f.startswith(d + "/"):
                     allowed |= {"proj/" + f, "proj/" + f + ".license"}
-        return gl, ["annotate"] + opts + [str(proj / d) for d in dirs], allowed, "annotate-recursive"
+        named = []
+        if "--force-dot-license" in opts and rng.random() < 0.5:
+            # a link named next to the directories: what is written for it is a sidecar next to the *name*, nothing next to the target
+            named = [str(proj / "link_to_outside_file.py")]
+            allowed |= {"proj/link_to_outside_file.py.license"}
+        return gl, ["annotate"] + opts + [str(proj / d) for d in dirs] + named, allowed, "annotate-recursive"
     if r < 0.90:
         allowed = {"proj/REUSE.toml", "proj/.reuse/dep5"} if recipe["global_mode"] == "dep5" else set()
         return gl, ["convert-dep5"], allowed, "convert-dep5"
